@@ -27,6 +27,9 @@ func GenCases(c *Ctx, n int, depth int, modes []Mode, tweak func(*G)) []*Case {
 	var out []*Case
 	for i := 0; i < n; i++ {
 		g := &G{r: c.Rng}
+		if i%4 == 3 {
+			g.Chaos = 60 // a separate, mostly ill-typed stream (rejected by the checker in typed modes, run-time type errors under Eval)
+		}
 		if tweak != nil {
 			tweak(g)
 		}
@@ -180,3 +183,63 @@ func VMCorrespondence(c *Ctx, cases []*Case, budget int) []*VMResult {
 }
 
 func nanEq(a, b string) bool { return false }
+
+// SpecCorrespondence evaluates each compiled case with the Lean reference evaluator (on the tree the
+// real compiler was given) and compares value / error class / call log / allocation total with the real run.
+// flags = (rangeSizeSigned, sliceToFirst): (false,false) is the semantics the properties require.
+func SpecCorrespondence(c *Ctx, results []*VMResult, budget int, rangeSigned, sliceToFirst bool, onDiff func(vr *VMResult, spec, real string)) {
+	r := c.R
+	var lines []string
+	for _, vr := range results {
+		cs := vr.Case
+		cast := "_"
+		if cs.Mode.Env != "none" && (cs.Mode.Cast == "int64" || cs.Mode.Cast == "float64") {
+			cast = cs.Mode.Cast
+		}
+		lines = append(lines, T("speceval", SInt(int64(budget)), T("flags", SBool(rangeSigned), SBool(sliceToFirst)), A(cast),
+			valSx(envVal(cs)), A(cs.B.TreeSx)).String())
+	}
+	resp, err := c.AskAll(lines)
+	if err != nil {
+		r.Mismatch("driver", "speceval", err.Error(), "")
+		return
+	}
+	for i, vr := range results {
+		m, perr := ParseSx(resp[i])
+		if perr != nil || (m.Tag() != "ok" && m.Tag() != "err") {
+			r.Mismatch("spec", vr.Case.Src, resp[i], "bad response")
+			continue
+		}
+		logOf := func(x *Sx) string {
+			out := []string{}
+			for _, e := range x.List[1:] {
+				s := e.List[0].Str()
+				for _, a := range e.List[1:] {
+					s += "~" + a.String()
+				}
+				out = append(out, strings.ReplaceAll(s, " ", "~"))
+			}
+			return strings.Join(out, ",")
+		}
+		var spec string
+		if m.Tag() == "ok" {
+			spec = fmt.Sprintf("(ok %s mem=%s log=%s)", m.List[1], m.List[2].Atom, logOf(m.List[4]))
+		} else {
+			spec = fmt.Sprintf("(err %s mem=%s log=%s)", m.List[1].Atom, m.List[2].Atom, logOf(m.List[4]))
+		}
+		rl := []string{}
+		for _, l := range vr.Real.Log {
+			rl = append(rl, strings.ReplaceAll(l, " ", "~"))
+		}
+		var real string
+		if vr.Real.Err != nil {
+			real = fmt.Sprintf("(err %s mem=%d log=%s)", vr.Real.Class, vr.Real.Memory, strings.Join(rl, ","))
+		} else {
+			real = fmt.Sprintf("(ok %s mem=%d log=%s)", valSx(vr.Real.Val), vr.Real.Memory, strings.Join(rl, ","))
+		}
+		r.Count("spec:compared", 1)
+		if spec != real {
+			onDiff(vr, spec, real)
+		}
+	}
+}
